@@ -5,12 +5,12 @@ package main
 // tree every cancellation point is enumerated for three kinds of consumer.
 
 import (
-	"reflect"
 	"encoding/json"
 	"errors"
 	"fmt"
 	"io/fs"
 	"iter"
+	"reflect"
 	"strings"
 	"time"
 
@@ -380,6 +380,7 @@ func (c19) Exec(plan any, c *Ctx) *Violation {
 			i := 0
 			for e := range all() {
 				got = append(got, e)
+				clockTick("the next yield (a slow consumer)")
 				if i == k {
 					break
 				}
